@@ -1110,6 +1110,39 @@ func main() {
 				g.step("aesige", H(r.Bytes(16)), H(ak), itoa(i%2))
 			}
 		}
+		// s5b: consecutive nonce pairs whose variable-length renderings run together: with leading zero bytes dropped
+		// (big.Int.Bytes()) the concatenation new_nonce|server_nonce of the two pairs is the same byte string, a byte
+		// (or two, or a whole nonce's worth of zeros) having moved across the boundary.  Anything that identifies a
+		// pair by such a rendering (a memo of the last derivation, a map key) hands the second pair the first one's keys.
+		{
+			g.newSeq()
+			type nn struct{ n, s []byte }
+			var pairs []nn
+			for _, k := range []int{1, 2, 3} {
+				a, b := r.Bytes(32-k), r.Bytes(16)
+				a[0] |= 1
+				b[k] |= 1
+				n1 := append(make([]byte, k), a...)
+				n2 := append(append([]byte{}, a...), b[:k]...)
+				s2 := append(make([]byte, k), b[k:]...)
+				pairs = append(pairs, nn{n1, b}, nn{n2, s2})
+			}
+			{ // the all-zero new_nonce next to a pair whose server nonce carries everything, and the reverse
+				b := r.Bytes(16)
+				b[0] |= 1
+				pairs = append(pairs, nn{make([]byte, 32), b}, nn{append(make([]byte, 16), b...), make([]byte, 16)})
+			}
+			for i := 0; i+1 < len(pairs); i += 2 {
+				for _, p := range []nn{pairs[i], pairs[i+1], pairs[i]} {
+					g.step("tk", H(p.n), H(p.s))
+				}
+				payload := r.Bytes(12)
+				for _, p := range []nn{pairs[i], pairs[i+1]} {
+					g.step("enc", H(p.n), H(p.s), H(payload))
+					g.step("dec", H(p.n), H(p.s), H(peerEncrypt(payload, nil, p.n, p.s)), H(payload), "0")
+				}
+			}
+		}
 		// s6..: random mixes over a small pool of values, so that repeats and alternations occur
 		nseq, nsteps := 3, 40
 		if thorough {
